@@ -1,3 +1,145 @@
 import FoxModel.Model.Serve
+/-
+  Property C11 — unserved requests get the right 404 / 405 / OPTIONS answer and Allow header.
+  Theorems over `Fox.Model.special` (the part of ServeHTTP after the route dispatch, fox.go) — the model is tied to the Go
+  code by the `serve` stream, which also checks (model-free) that the context is scrubbed in every special handler.
+-/
 namespace Fox.C11
+open Fox Fox.Model
+
+/-- what the Allow loops of ServeHTTP accept for a method: a direct match, or a trailing-slash match on a route that
+    ignores trailing slashes -/
+def looseServes : Result → Bool
+  | .found r _ tsr => !tsr || r.ignoreTS
+  | _ => false
+
+/-- what dispatch really serves for method `x` (property C08): additionally never a trailing-slash match for CONNECT
+    or for the root path -/
+def strictServes (res : Result) (x urlPath : Bytes) : Bool :=
+  match res with
+  | .found r _ tsr => !tsr || (r.ignoreTS && x != CONNECT && urlPath != [SLASH])
+  | _ => false
+
+theorem allows_fst (rs : Roots) (x host path : Bytes) : (allows rs x host path).1 = looseServes (lookup rs x host path) := by
+  unfold allows looseServes
+  cases lookup rs x host path <;> rfl
+
+theorem filterMap_fst {α β} (l : List α) (p : α → Bool) (f : α → β) (g : α → Bool) :
+    (l.filterMap fun x => if p x then some (f x, g x) else none).map (·.1) = (l.filter p).map f := by
+  induction l with
+  | nil => rfl
+  | cons a l ih =>
+    simp only [List.filterMap_cons, List.filter_cons]
+    by_cases h : p a = true
+    · simp [h, ih]
+    · simp [h, ih]
+
+/-- the methods listed by the OPTIONS branch for an ordinary target: exactly the methods (in root order) for which the
+    matcher finds a route that serves the host and path loosely -/
+theorem optionsHits_methods (rs : Roots) (host path : Bytes) (hp : path ≠ [STAR]) :
+    (optionsHits rs host path).map (·.1) =
+      ((rs.filter fun x => looseServes (lookup rs x.1 host path)).map (·.1)) := by
+  unfold optionsHits
+  have : (path == [STAR]) = false := by simpa using hp
+  simp only [this, Bool.false_eq_true, if_false]
+  have := filterMap_fst rs (fun x => (allows rs x.1 host path).1) (·.1) (fun x => (allows rs x.1 host path).2)
+  simp only [allows_fst] at this ⊢
+  exact this
+
+/-- for the target "*": every method other than OPTIONS that has routes -/
+theorem optionsHits_star (rs : Roots) (host : Bytes) :
+    (optionsHits rs host [STAR]).map (·.1) =
+      ((rs.filter fun x => x.1 != OPTIONS && !x.2.children.isEmpty).map (·.1)) := by
+  unfold optionsHits
+  simp [Function.comp_def]
+
+/-- the methods listed by the 405 branch: the *other* methods that serve loosely -/
+theorem noMethodHits_methods (rs : Roots) (m host path : Bytes) :
+    (noMethodHits rs m host path).map (·.1) =
+      ((rs.filter fun x => !(x.1 == m) && looseServes (lookup rs x.1 host path)).map (·.1)) := by
+  unfold noMethodHits
+  have h1 : ∀ x : Bytes × Node,
+      (if (x.1 == m) = true then none
+       else (let a := allows rs x.1 host path; if a.1 = true then some (x.1, a.2) else none)) =
+      (if (!(x.1 == m) && looseServes (lookup rs x.1 host path)) = true then some (x.1, (allows rs x.1 host path).2) else none) := by
+    intro x
+    rw [← allows_fst]
+    by_cases hx : (x.1 == m) = true
+    · simp [hx]
+    · simp [hx]
+  simp only [h1]
+  exact filterMap_fst rs _ (·.1) (fun x => (allows rs x.1 host path).2)
+
+/-- **the answer depends only on the router options** (and on which methods serve): OPTIONS with automatic replies ⇒
+    options handler with Allow = listed methods + OPTIONS, or no-route if none; otherwise with method-not-allowed ⇒
+    no-method handler with Allow = the other listed methods (+ OPTIONS when automatic replies are on and it is not
+    listed), or no-route if none; otherwise no-route -/
+theorem special_decision (cfg : Cfg) (rs : Roots) (m host path : Bytes) :
+    special cfg rs m host path =
+      if m == OPTIONS && cfg.autoOptions then
+        (if (optionsHits rs host path).isEmpty then { kind := .noRoute }
+         else { kind := .options, allow := (optionsHits rs host path).map (·.1) ++ [OPTIONS],
+                tags := if (optionsHits rs host path).any (·.2) then ["allow-connect-tsr"] else [] })
+      else if cfg.noMethod then
+        (if (noMethodHits rs m host path).isEmpty then { kind := .noRoute }
+         else { kind := .noMethod,
+                allow := (noMethodHits rs m host path).map (·.1) ++
+                  (if cfg.autoOptions && !((noMethodHits rs m host path).any (·.1 == OPTIONS)) then [OPTIONS] else []),
+                tags := if (noMethodHits rs m host path).any (·.2) then ["allow-connect-tsr"] else [] })
+      else { kind := .noRoute } := by
+  unfold special optionsOutcome noMethodOutcome
+  rfl
+
+/-- with both options off every unserved request goes to the no-route handler -/
+theorem special_plain (cfg : Cfg) (rs : Roots) (m host path : Bytes) (h1 : cfg.autoOptions = false) (h2 : cfg.noMethod = false) :
+    (special cfg rs m host path).kind = .noRoute ∧ (special cfg rs m host path).allow = [] := by
+  unfold special
+  simp [h1, h2]
+
+/-- Allow never lists the request's own method in a 405 answer -/
+theorem noMethod_excludes_own (rs : Roots) (m host path : Bytes) : m ∉ (noMethodHits rs m host path).map (·.1) := by
+  rw [noMethodHits_methods]
+  intro h
+  simp only [List.mem_map, List.mem_filter, Bool.and_eq_true, Bool.not_eq_true'] at h
+  obtain ⟨x, ⟨_, hx, _⟩, rfl⟩ := h
+  simp at hx
+
+/-- **the only way Allow can list a method that does not serve the request** (recorded finding F17): the loose test of
+    the Allow loops differs from what dispatch serves exactly for a trailing-slash match on an ignore-trailing-slash
+    route when the method is CONNECT or the path is "/" -/
+theorem loose_vs_strict (res : Result) (x urlPath : Bytes) :
+    looseServes res ≠ strictServes res x urlPath ↔
+      ∃ r ps, res = .found r ps true ∧ r.ignoreTS = true ∧ (x = CONNECT ∨ urlPath = [SLASH]) := by
+  cases res with
+  | none => simp [looseServes, strictServes]
+  | bad => simp [looseServes, strictServes]
+  | found r ps tsr =>
+    cases tsr with
+    | false => simp [looseServes, strictServes]
+    | true =>
+      have hx : (x != CONNECT) = !(x == CONNECT) := rfl
+      have hu' : (urlPath != [SLASH]) = !(urlPath == [SLASH]) := rfl
+      simp only [looseServes, strictServes, Bool.not_true, Bool.false_or, ne_eq, hx, hu']
+      constructor
+      · intro h
+        refine ⟨r, ps, rfl, ?_, ?_⟩
+        · cases hi : r.ignoreTS with
+          | true => rfl
+          | false => exfalso; apply h; rw [hi]; rfl
+        · by_cases hc : x = CONNECT
+          · exact Or.inl hc
+          · by_cases hu : urlPath = [SLASH]
+            · exact Or.inr hu
+            · exfalso; apply h
+              have e1 : (x == CONNECT) = false := by simpa using hc
+              have e2 : (urlPath == [SLASH]) = false := by simpa using hu
+              rw [e1, e2]; simp
+      · rintro ⟨r', ps', heq, hi, hg⟩
+        injection heq with h1 h2 _
+        subst h1
+        rw [hi]
+        rcases hg with hg | hg
+        · subst hg; simp
+        · subst hg; simp
+
 end Fox.C11
